@@ -11,9 +11,10 @@ requests
   mode  cl T f                         → C: F S Cv | Py: F S Cv ZPE | fixed forms: S' Cv'
   mesh  cl pretend hascut cut nq nb ns bi[ns] w[nq] fr[nq·nb] nt T[nt]
         → zpe(thr=0) zpe(thr=cut) num_modes num_integrated_modes then per T: pyF pyS pyS' pyCv pyCv' cF(zpe thr 0) cF(zpe thr cut) cS cCv   (kJ/mol, kJ/K/mol)
-  proj  cl hascut cut nq nb w[nq] fr[nq·nb] e2[nq·nb·nb] nt T[nt]
-        → per T, per component j: F S S' Cv Cv'
+  proj  cl pretend hascut cut nq nr nb ns bi[ns] w[nq] fr[nq·nb] e2[nq·nr·ns] nt T[nt]      (e2 = |eigvecs[:, :, bi]|²)
+        → per T, per component j < nr: F S S' Cv Cv'
   keeptemps nt T[nt]
+  temprange hasmin tmin hasmax tmax hasstep tstep   → "n" followed by the temperature grid
   cloop cl cut nt nq nb T[nt] freqs[nq·nb] weights[nq]     (the generated loop nest of phpy_get_thermal_properties,
         → 3·nt values of thermal_props (eV units)           started from zeros, uninitialised objects = NaN)
 -/
@@ -102,32 +103,47 @@ def handle (line : String) : String :=
       else none
     | "proj" =>
       let (cl, c) ← bool? c
+      let (pretend, c) ← bool? c
       let (hascut, c) ← bool? c
       let (cutTHz, c) ← fl? c
       let (nq, c) ← c.nat?
+      let (nr, c) ← c.nat?
       let (nb, c) ← c.nat?
+      let (ns, c) ← c.nat?
+      let (bi, c) ← c.nats? ns
+      let bi ← allFin? nb bi
       let (w, c) ← fls? c nq
       let (fr, c) ← fls? c (nq * nb)
-      let (e2, c) ← fls? c (nq * nb * nb)
+      let (e2, c) ← fls? c (nq * nr * ns)
       let (nt, c) ← c.nat?
       let (ts, c) ← fls? c nt
       if !c.atEnd then none
-      let wf : Fin nq → Float := fun q => w.getD q.1 0
-      let thz := ThermalC.THzToEv_f
-      let conv := ThermalC.EvTokJmol_f
-      let fe : Fin nq → Fin nb → Float := fun q j => fr.getD (q.1 * nb + j.1) 0 * thz
-      let e2f : Fin nq → Fin nb → Fin nb → Float := fun q j ν => e2.getD ((q.1 * nb + j.1) * nb + ν.1) 0
-      let cut := cutoffEv thz (if hascut then some cutTHz else none)
-      let mut out : Array Float := #[]
-      for t in ts do
-        for j in List.finRange nb do
-          out := out ++ #[
-            pyProj (fun f => modeF EPy t f cl) (fun f => modeZPE EPy t f cl) conv wf fe e2f cut t j,
-            pyProj (fun f => modeS EPy t f cl) (fun f => modeZero EPy t f cl) conv wf fe e2f cut t j * 1000,
-            pyProj (fun f => modeS' EPy t f cl) (fun f => modeZero EPy t f cl) conv wf fe e2f cut t j * 1000,
-            pyProj (fun f => modeCv EPy t f cl) (fun f => modeZero EPy t f cl) conv wf fe e2f cut t j * 1000,
-            pyProj (fun f => modeCv' EPy t f cl) (fun f => modeZero EPy t f cl) conv wf fe e2f cut t j * 1000]
-      pure (showFs out)
+      if h : bi.size = ns then
+        let bsel : Fin ns → Fin nb := fun j => bi[j.1]'(by omega)
+        let wf : Fin nq → Float := fun q => w.getD q.1 0
+        let thz := ThermalC.THzToEv_f
+        let conv := ThermalC.EvTokJmol_f
+        let frf : Fin nq → Fin nb → Float := fun q j => fr.getD (q.1 * nb + j.1) 0
+        let frs : Array Float := Id.run do
+          let mut out := Array.mkEmpty (nq * ns)
+          for q in List.finRange nq do
+            for j in List.finRange ns do
+              out := out.push (prepFreqs thz pretend bsel frf q j)
+          pure out
+        let fe : Fin nq → Fin ns → Float := fun q j => frs.getD (q.1 * ns + j.1) 0
+        let e2f : Fin nq → Fin nr → Fin ns → Float := fun q j ν => e2.getD ((q.1 * nr + j.1) * ns + ν.1) 0
+        let cut := cutoffEv thz (if hascut then some cutTHz else none)
+        let mut out : Array Float := #[]
+        for t in ts do
+          for j in List.finRange nr do
+            out := out ++ #[
+              pyProj (fun f => modeF EPy t f cl) (fun f => modeZPE EPy t f cl) conv wf fe e2f cut t j,
+              pyProj (fun f => modeS EPy t f cl) (fun f => modeZero EPy t f cl) conv wf fe e2f cut t j * 1000,
+              pyProj (fun f => modeS' EPy t f cl) (fun f => modeZero EPy t f cl) conv wf fe e2f cut t j * 1000,
+              pyProj (fun f => modeCv EPy t f cl) (fun f => modeZero EPy t f cl) conv wf fe e2f cut t j * 1000,
+              pyProj (fun f => modeCv' EPy t f cl) (fun f => modeZero EPy t f cl) conv wf fe e2f cut t j * 1000]
+        pure (showFs out)
+      else none
     | "cloop" =>
       let (cl, c) ← bool? c
       let (cut, c) ← fl? c
@@ -142,6 +158,17 @@ def handle (line : String) : String :=
       let res := ThermalC.phpy_get_thermal_properties E (fun _ => 0.0) (fun k => ts.getD k nan)
         (fun k => fr.getD k nan) (fun k => w.getD k nan) nt nq nb cut (clInt cl) (fun _ => nan) nan
       pure (showFs (Array.ofFn (n := nt * 3) fun i => res i.1))
+    | "temprange" =>
+      let (h0, c) ← bool? c
+      let (t0, c) ← fl? c
+      let (h1, c) ← bool? c
+      let (t1, c) ← fl? c
+      let (h2, c) ← bool? c
+      let (dt, c) ← fl? c
+      if !c.atEnd then none
+      let l := tempRange floatGrid (if h0 then some t0 else none) (if h1 then some t1 else none) (if h2 then some dt else none)
+      if l.length > 100000 then none
+      pure ("n " ++ showFs l.toArray)
     | "keeptemps" =>
       let (nt, c) ← c.nat?
       let (ts, c) ← fls? c nt
